@@ -378,4 +378,184 @@ example (b' : HlslAst.Stmts) (h : genStmts cxW fExM.body = .ok b') (fuel : Nat) 
 example : genExpr { cxW with vty := fun _ => .float } (.op .Modulus (.cons (.var 0) (.cons (.var 1) .nil))) =
     .ok (.call "metal::fmod" (.cons (.ident "l") (.cons (.ident "ll") .nil))) := by rfl
 
+/-! ### non-vacuity of `gen_sem_program`: the aliasing program of seeded mutant C02-2
+
+`static int g0; void bump(inout int x) { x = x + 1; g0 = g0 + 10; } int f() { bump(g0); return g0; }` — every hypothesis
+(`ProgOK` incl. layout and name conditions, `SynOK`, `OutOK`) is established for it, and the theorem is instantiated at the
+call that passes the static both as the inout argument and as the threaded reference. -/
+
+/-- `void bump(inout int x) { x = x + 1; g0 = g0 + 10; }` -/
+def bumpFn : Ir.Func where
+  id := 0
+  ret := .void
+  params := [(2, .inout, .int)]
+  body :=
+    .cons (.expr (.op .Assignment (.cons (.var 2) (.cons (.op .Add (.cons (.var 2) (.cons (.lit (.int32 1)) .nil))) .nil))))
+    (.cons (.expr (.op .Assignment (.cons (.global 0) (.cons (.op .Add (.cons (.global 0) (.cons (.lit (.int32 10)) .nil))) .nil)))) .nil)
+
+/-- `int f() { bump(g0); return g0; }` -/
+def callerFn : Ir.Func where
+  id := 1
+  ret := .int
+  params := []
+  body := .cons (.expr (.call 0 (.cons (.global 0) .nil))) (.cons (.ret (some (.global 0))) .nil)
+
+def progP : List Ir.Func := [bumpFn, callerFn]
+
+def xoP : Var := .loc 1000
+
+def cxP : Ctx :=
+  { cxW with
+    vty := fun x => if x = xoP then .void else .int
+    retTy := fun f => if f = 0 then some .void else some .int
+    req := fun _ => some [0]
+    called := fun f => f == 0 }
+
+def mprogP : List MslAst.Func := match genProg cxP progP with | .ok m => m | .error _ => []
+
+theorem genP : genProg cxP progP = .ok mprogP := by rfl
+
+/-- the emitted module: the trampoline target of `bump`, its trampoline, `f` -/
+example : mprogP.map (fun m => (m.name, m.params.length, m.isTarget)) = [("Z", 3, true), ("Z", 2, false), ("ZZ", 1, false)] := by decide
+
+def frameP (s : String) : Option Var :=
+  match s.toList with
+  | 'l' :: r => some (.loc r.length)
+  | '_' :: '_' :: 'l' :: r => some (.loc r.length)
+  | ['o', 'u', 't'] => some xoP
+  | _ => none
+
+def LP : Msl.Layout where
+  frame _ s := frameP s
+  vty := cxP.vty
+  fres s := match s.toList with
+    | 'Z' :: r => some r.length
+    | _ => none
+  scratch fname := if fname = "Z" then [xoP] else []
+
+def vis0P : Nat → Var → Bool := fun _ x => match x with | .loc n => decide (n < 100) | .glob _ => false
+def rsvP : Nat → List Var := fun f => if f = 0 then [xoP, .loc 2] else []
+
+theorem locName_inj (a b : Nat) (h : cxP.locName a = cxP.locName b) : a = b := by
+  have := congrArg String.toList h
+  simp [cxP, cxW] at this
+  exact this
+
+theorem globName_inj (a b : Nat) (h : cxP.globName a = cxP.globName b) : a = b := by
+  have := congrArg String.toList h
+  simp [cxP, cxW] at this
+  exact this
+
+theorem name_inj (x y : Var) (h : cxP.name x = cxP.name y) : x = y := by
+  cases x with
+  | loc a =>
+    cases y with
+    | loc b => rw [locName_inj a b (by simpa [Ctx.name] using h)]
+    | glob b =>
+      have := congrArg String.toList h
+      simp [Ctx.name, cxP, cxW, List.replicate_succ] at this
+  | glob a =>
+    cases y with
+    | glob b => rw [globName_inj a b (by simpa [Ctx.name] using h)]
+    | loc b =>
+      have := congrArg String.toList h
+      simp [Ctx.name, cxP, cxW, List.replicate_succ] at this
+
+theorem resP (f : Nat) : Res cxP (vis0P f) frameP := by
+  intro x hx
+  cases x with
+  | loc n => simp [Ctx.name, cxP, cxW, frameP, List.replicate_succ]
+  | glob n => simp [vis0P] at hx
+
+theorem fresP (f : Nat) : LP.fres (cxP.funcName f) = some f := by simp [LP, cxP, cxW]
+
+theorem notLibP (f : Nat) : cxP.funcName f ≠ Msl.fmodName ∧ cxP.funcName f ≠ Msl.tagName := by
+  constructor <;> (intro h; have := congrArg String.toList h; simp [cxP, cxW, Msl.fmodName, Msl.tagName] at this)
+
+theorem agreeLP (fn : Ir.Func) (hp : ∀ p ∈ fn.params, p.1 < 100) : AgreeL cxP LP fn (vis0P fn.id) where
+  vty := rfl
+  fres := fresP
+  notLib := notLibP
+  frame := resP fn.id
+  params := fun p hp' => by simp [vis0P, hp p hp']
+
+theorem funcOK_bump : FuncOK cxP LP progP rsvP (fun _ => xoP) vis0P bumpFn [0] where
+  req := rfl
+  ret := rfl
+  layout := agreeLP bumpFn (by decide)
+  inj := fun x y _ _ h => name_inj x y h
+  ids := by decide
+  wt := by decide
+  tyP := by decide
+  scratch := by decide
+  tramp := fun _ => ⟨
+    { vty := rfl
+      fres := fresP 0
+      notFmod := (notLibP 0).1
+      slotP := by decide
+      slotT := by decide
+      slotO := by decide
+      scratch := by decide
+      tyO := by decide
+      xoFresh := by decide
+      ids := by decide
+      names := by decide
+      namesT := by decide
+      namesO := by decide
+      namesG := by decide }, by decide⟩
+
+theorem funcOK_caller : FuncOK cxP LP progP rsvP (fun _ => xoP) vis0P callerFn [0] where
+  req := rfl
+  ret := rfl
+  layout := agreeLP callerFn (by decide)
+  inj := fun x y _ _ h => name_inj x y h
+  ids := by decide
+  wt := by decide
+  tyP := by decide
+  scratch := by decide
+  tramp := fun h => by simp [needsTrampoline, hasOut, callerFn] at h
+
+theorem progOKP : ProgOK cxP LP progP mprogP rsvP (fun _ => xoP) vis0P where
+  gen := genP
+  ids := by decide
+  fres := fresP
+  funcs := by
+    intro fn hfn
+    simp only [progP, List.mem_cons, List.not_mem_nil, or_false] at hfn
+    rcases hfn with rfl | rfl
+    · exact ⟨[0], funcOK_bump⟩
+    · exact ⟨[0], funcOK_caller⟩
+
+theorem synOKP : SynOK cxP progP (fun _ => xoP) where
+  scratchFree := by decide
+  voidNoRet := by decide
+
+theorem offOut_noOut : ∀ (ps : Params) (vs ws : List Val), (ps.all fun p => decide (p.2.1 ≠ .out)) = true → offOut ps vs ws → vs = ws
+  | [], [], [], _, _ => rfl
+  | [], [], _ :: _, _, h => by simp [offOut] at h
+  | [], _ :: _, _, _, h => by simp [offOut] at h
+  | _ :: _, [], _, _, h => by simp [offOut] at h
+  | _ :: _, _ :: _, [], _, h => by simp [offOut] at h
+  | (pid, d, T) :: ps, v :: vs, w :: ws, hall, h => by
+    simp only [List.all_cons, Bool.and_eq_true, decide_eq_true_eq] at hall
+    simp only [offOut] at h
+    rw [h.1 hall.1, offOut_noOut ps vs ws hall.2 h.2]
+
+theorem outOKP (P : Prim) (fuel : Nat) : OutOK cxP P progP fuel := by
+  intro d fn hfn hn vals vals' σ hoff
+  simp only [progP, List.mem_cons, List.not_mem_nil, or_false] at hfn
+  rcases hfn with rfl | rfl
+  · rw [offOut_noOut bumpFn.params vals vals' (by decide) hoff]
+  · simp [needsTrampoline, hasOut, callerFn] at hn
+
+/-- the aliasing call `bump(g0)` of the emitted program: the static is passed as the inout argument *and* as the threaded
+reference; the Metal call is the typed copy-in/copy-out call -/
+example (P : Prim) (fuel d : Nat) (v : Val) (σ : Store) :
+    Msl.phi P LP mprogP fuel d 0 false [Msl.MArg.ref (.glob 0), Msl.MArg.ref (.glob 0)] σ =
+      match Ir.phi P progP fuel d 0 [σ (.glob 0)] σ with
+      | none => none
+      | some (ret, finals, σ2) => some (ret, writeBack [some (.glob 0)] finals σ2) :=
+  gen_sem_program progOKP synOKP (outOKP P fuel) d 0 .void [(.inout, .int)] [0] [(v, some (.glob 0))] σ rfl rfl rfl (by simp [fitsB, cxP, xoP])
+    (by intro p hp x hx; simp at hp; subst hp; simp at hx; subst hx; decide)
+
 end RsslVerif.Thm.C02Sem
